@@ -55,8 +55,8 @@ claim('C20', 'proof', K1 + '; ' + K2 + '; ' + GR + '; ' + BD,
       'prel31; index entry classification and byte-code unpacking (all models, unbounded word loop); byte-code disassembler: every 1- and 2-byte instruction enumerated exhaustively against the EHABI 9.3 table; attribute value kinds per tag (ARM, RISC-V) incl. number lists by loop invariant; subsection and sub-subsection walkers by displacement with interference at yields',
       'ULEB operand of opcode 0xb2 and instruction sequences are bounded stand-ins (reported separately); _make_attributes walker and mnemonic text have no independent oracle; a bounded differential covers attribute sections with file/section/symbol sub-subsections (ARM, RISC-V) and exception index tables whose index entries share table entries, read in shuffled orders')
 claim('C04', 'proof', K1 + '; ' + K2 + '; ' + BD,
-      'K2: unit headers (v2-v5, every unit type), abbreviation declarations incl. implicit_const and the full form table per (format, address size, version) equal the DWARF layouts over the complete configuration space. K1 (all inputs): the parse of one entry (DIE._parse_DIE by step refinement: code, null entries, every attribute adjacent to the previous with name, offset, final form, raw value, indirection length; DW_FORM_indirect chains of any depth) over abstract form parsers; value translation (strings, flags, index forms with the unit\'s entry width and bases); unit header parse; the per-unit entry cache (sorted, duplicate free, exact), lookups by offset (rejects offsets outside the unit), children iteration proved against the structural tree specification (DW_AT_sibling shortcuts in unit-relative and section-relative forms give the same offsets on well-formed input); the same five contracts for version 4 type units (TypeUnit, derived mechanically from the CompileUnit contracts by renaming), type unit header parse and the type unit walk of .debug_types; reference resolution: the dispatch of DIE.get_DIE_from_attribute over the reference forms (unit-relative = unit offset + value within the own unit, section-relative passed unchanged, non-reference forms rejected) and DWARFInfo.get_DIE_from_refaddr (the entry at that offset of the containing unit)',
-      'DIE.__init__ enters the cache contracts as an ASSUMED die_at predicate (identified with _parse_DIE\'s contract on paper); abbreviation table lookups assumed (layout K2); the resolved attribute VALUE, _iter_DIE_subtree, get_parent, the lookup of a type unit by signature (_parse_debug_types, get_TU_by_sig8, get_DIE_by_sig8: ASSUMED at the dispatch) are covered only by the bounded differentials (generated sections: 1-3 units of mixed parameters plus version 4 type units, every form incl. nested DW_FORM_indirect, trees of depth <= 4; reference resolution by every reference form incl. type signatures of v4 and v5 type units); termination of the recursive children walk not proved; Sem of construct node kinds assumed')
+      'K2: unit headers (v2-v5, every unit type), abbreviation declarations incl. implicit_const and the full form table per (format, address size, version) equal the DWARF layouts over the complete configuration space. K1 (all inputs): the parse of one entry (DIE._parse_DIE by step refinement: code, null entries, every attribute adjacent to the previous with name, offset, final form, raw value, indirection length; DW_FORM_indirect chains of any depth) over abstract form parsers; value translation (strings, flags, index forms with the unit\'s entry width and bases); unit header parse; the per-unit entry cache (sorted, duplicate free, exact), lookups by offset (rejects offsets outside the unit), children iteration proved against the structural tree specification (DW_AT_sibling shortcuts in unit-relative and section-relative forms give the same offsets on well-formed input); the same five contracts for version 4 type units (TypeUnit, derived mechanically from the CompileUnit contracts by renaming), type unit header parse and the type unit walk of .debug_types; reference resolution: the dispatch of DIE.get_DIE_from_attribute over the reference forms (unit-relative = unit offset + value within the own unit, section-relative passed unchanged, non-reference forms rejected) and DWARFInfo.get_DIE_from_refaddr (the entry at that offset of the containing unit); the signature map of .debug_types as a representation field (_parse_debug_types: every entry is a type unit parsed at its own offset whose header carries the key; get_TU_by_sig8; the version 4 path of get_DIE_by_sig8: the entry at type_offset of that unit, under the well-formedness precondition that type_offset designates a position at or after the first entry)',
+      'DIE.__init__ enters the cache contracts as an ASSUMED die_at predicate (identified with _parse_DIE\'s contract on paper); abbreviation table lookups assumed (layout K2); the resolved attribute VALUE, _iter_DIE_subtree, get_parent, the scan of the version 5 type units inside get_DIE_by_sig8 (explored, not specified: the unit objects the unit walk yields carry no version 5 header members in the contract\'s view) are covered only by the bounded differentials (generated sections: 1-3 units of mixed parameters plus version 4 type units, every form incl. nested DW_FORM_indirect, trees of depth <= 4; reference resolution by every reference form incl. type signatures of v4 and v5 type units); termination of the recursive children walk not proved; Sem of construct node kinds assumed')
 claim('C05', 'proof', K1 + '; ' + K2 + '; ' + BD,
       'K1 (all inputs): step refinement of LineProgram._decode_line_program against the DWARF 6.2.5 state machine: after every iteration each register, the emitted row and the next instruction offset are what the specification prescribes (special, standard incl. unknown standard opcodes skipped by standard_opcode_lengths, extended opcodes, VLIW op_index); K2: line program header v2-v5 incl. entry formats, file entries, form table',
       'header/extent handling in DWARFInfo._parse_line_program_at_offset and the v5 directory/file tables (entry formats varying per unit: inline, .debug_str and .debug_line_str paths, numeric forms, optional fields) are covered by the bounded differential only; the fold over the whole program follows from the step lemma by induction on the loop (composition argument in DESIGN 4, not machine checked); one recorded known finding (is_stmt of the end_sequence row)')
